@@ -165,7 +165,7 @@ func Run(opts *Options) (int, error) {
 	}
 
 	// Reader
-	streamingFilter := opts.Filter != nil && !sort && !opts.Tac && !opts.Sync
+	streamingFilter := opts.Filter != nil && !sort && !opts.Tac && !opts.Sync && opts.Tail == 0
 	var reader *Reader
 	if !streamingFilter {
 		reader = NewReader(func(data []byte) bool {
